@@ -99,6 +99,14 @@ theorem required_string_survives {k n P : String} {f : Field} (hm : memberField 
   subst hr
   exact ⟨out, ho, hmem (by simp [isEmptyEnc, hs])⟩
 
+/-- **A response keeps its `description`** (hand-written codec, every input object): unless the response is given by
+reference (its encoding carries a non-empty `$ref`; then `Response.MarshalJSON` omits an empty description), the
+encoding has a `description` member. -/
+theorem response_keeps_description {ms : List (String × Json)} {j' : Json} (h : norm "response" (.obj ms) = .ok j') :
+    ∃ out, j' = .obj out ∧ ((∀ t, ("$ref", Json.str t) ∈ out → t = "") → ∃ r, ("description", r) ∈ out) := by
+  rw [norm_unfold] at h
+  exact response_description h
+
 /-- the theorem applies: `title` of `info` is a string field of the part `InfoProps`, and the last of three spellings
 of the member decides -/
 example : (memberField "info" "title").map (fun pf => (pf.1, pf.2.ft, pf.2.omitEmpty)) = some ("InfoProps", .str, true) := by
